@@ -30,7 +30,7 @@ class N(object):
 
 def clang_ast(path):
     src = open(path, "rb").read()
-    key = hashlib.sha256(src + path.encode()).hexdigest()[:20]
+    key = hashlib.sha256(src + path.encode() + b"v3-omp-lines").hexdigest()[:20]
     cdir = os.path.join(VERIF, ".build", "ast")
     os.makedirs(cdir, exist_ok=True)
     cpath = os.path.join(cdir, key + ".json")
@@ -47,6 +47,7 @@ def clang_ast(path):
     if p.returncode != 0 or not p.stdout.strip():
         raise RuntimeError("clang failed on %s: %s" % (path, p.stderr[-800:]))
     tree = json.loads(p.stdout)
+    _mark_omp_lines(tree, path)
     slim = _slim(tree)
     tmp = cpath + ".tmp%d" % os.getpid()
     json.dump(slim, open(tmp, "w"))
@@ -54,7 +55,49 @@ def clang_ast(path):
     return slim
 
 
-_KEEP = ("kind", "name", "opcode", "value", "isPostfix", "castKind", "inner", "referencedDecl", "type", "id", "init", "isArrow",
+def _mark_omp_lines(tree, path):
+    """clang's JSON dump omits the kind of OpenMP clauses.  Recover the pragma text: line numbers are printed only when they change, in
+    document order, so one ordered walk over the raw dump tracks the current line; every OMP directive node gets the text of its source line(s)."""
+    try:
+        lines = open(path, errors="replace").read().split("\n")
+    except OSError:
+        lines = []
+    state = {"line": 0, "file_main": True}
+
+    def pragma_text(ln):
+        out = []
+        i = ln - 1
+        while 0 <= i < len(lines):
+            out.append(lines[i].rstrip("\\").strip())
+            if not lines[i].rstrip().endswith("\\"):
+                break
+            i += 1
+        return " ".join(out)
+
+    def walk(n):
+        if isinstance(n, dict):
+            kind = n.get("kind", "")
+            is_omp = isinstance(kind, str) and kind.startswith("OMP") and kind.endswith("Directive")
+            text = None
+            for k, v in list(n.items()):
+                if k == "line" and isinstance(v, int):
+                    state["line"] = v
+                elif k == "inner":
+                    if is_omp and text is None:
+                        text = pragma_text(state["line"])
+                    walk(v)
+                else:
+                    walk(v)
+            if is_omp:
+                n["ompText"] = text if text is not None else pragma_text(state["line"])
+        elif isinstance(n, list):
+            for c in n:
+                walk(c)
+    walk(tree)
+    # the "inner" key comes after loc/range in clang's output, so the line seen when entering "inner" is the directive's own line
+
+
+_KEEP = ("ompText", "kind", "name", "opcode", "value", "isPostfix", "castKind", "inner", "referencedDecl", "type", "id", "init", "isArrow",
          "tagUsed", "storageClass", "hasElse", "isImplicit", "argType")
 
 
@@ -101,16 +144,25 @@ class TU(object):
         self.structs = {}
         self.typedefs = {}
         self.globals = {}
+        pending = None
         for c in self.tree.get("inner", []):
             k = c.get("kind")
             if k == "FunctionDecl":
                 self.functions[c["name"]] = c
-            elif k == "RecordDecl" and c.get("name"):
-                self.structs[c["name"]] = [(f["name"], f["type"]["qualType"]) for f in c.get("inner", []) if f.get("kind") == "FieldDecl"]
+            elif k == "RecordDecl":
+                fields = [(f["name"], f["type"]["qualType"]) for f in c.get("inner", []) if f.get("kind") == "FieldDecl"]
+                if c.get("name"):
+                    self.structs[c["name"]] = fields
+                pending = fields if not c.get("name") else None
+                continue
             elif k == "TypedefDecl":
                 self.typedefs[c["name"]] = c["type"]["qualType"]
+                # `typedef struct { ... } name;`: the anonymous record immediately precedes its typedef
+                if pending is not None and ("unnamed" in c["type"]["qualType"] or "anonymous" in c["type"]["qualType"] or c["type"]["qualType"].startswith("struct ")):
+                    self.structs[c["name"]] = pending
             elif k == "VarDecl":
                 self.globals[c["name"]] = c
+            pending = None
 
     def function(self, name):
         if name not in self.functions:
